@@ -280,3 +280,65 @@ Proof.
   intros H1 H2 H3. unfold collect. apply in_flat_map. exists row. split; [apply in_seq; lia|].
   apply in_flat_map. exists column. split; [apply in_seq; lia|]. rewrite H3. left; reflexivity.
 Qed.
+
+(* ====================== 4. sufficient condition for a candidate trunk ====================== *)
+Lemma ri_cell M k x : imem x (ri M k) -> cell M k x = true.
+Proof.
+  unfold ri, cell. destruct (row_interval (nth k M [])) as [[l h]|] eqn:E; cbn; [|tauto].
+  intros H. exact (proj2 (row_interval_good _ _ _ E) x H).
+Qed.
+
+Definition rowconvex (M : BoolMatrix) (k : nat) : Prop :=
+  forall x y z, x <= y <= z -> cell M k x = true -> cell M k z = true -> cell M k y = true.
+
+Lemma cell_ri M k x : rowconvex M k -> cell M k x = true -> imem x (ri M k).
+Proof.
+  intros Cv H. destruct (row_interval_convex (nth k M [])) as (l & h & E & _ & Hm).
+  - exists x. exact H.
+  - exact Cv.
+  - unfold ri. rewrite E. cbn. apply Hm. exact H.
+Qed.
+
+Theorem trunk_by_rows M t :
+  rlo t <= rhi t -> rhi t < length M -> clo t <= chi t ->
+  (forall i j, rlo t <= i <= rhi t -> clo t <= j <= chi t -> cell M i j = true) ->
+  (forall k, rlo t <= k <= rhi t -> rowconvex M k) ->
+  (clo t = 0 \/ exists k, rlo t <= k <= rhi t /\ cell M k (clo t - 1) = false) ->
+  (exists k, rlo t <= k <= rhi t /\ cell M k (S (chi t)) = false) ->
+  (rlo t = 0 \/ exists j, clo t <= j <= chi t /\ cell M (rlo t - 1) j = false) ->
+  (exists j, clo t <= j <= chi t /\ cell M (S (rhi t)) j = false) ->
+  In t (get_trunks_matrix M).
+Proof.
+  destruct t as [r1 r2 c1 c2]. cbn [rlo rhi clo chi].
+  intros Hr Hn Hc Full Cv West (ke & Hke & East) North (js & Hjs & South).
+  unfold get_trunks_matrix. apply collect_intro; [exact Hr|exact Hn|].
+  (* the unfiltered entry *)
+  assert (E0 : tab_get (table M) r1 r2 = Some (c1, c2)).
+  { destruct (table_mem M r1 r2 Hn Hr) as [W Hm].
+    apply imem_ext; [exact W|cbn; exact Hc|]. intros x. rewrite Hm. cbn [imem]. split.
+    - intros A.
+      assert (B : forall k, r1 <= k <= r2 -> cell M k x = true) by (intros k Hk; apply ri_cell, A, Hk).
+      destruct (le_lt_dec c1 x) as [Q1|Q1]; [destruct (le_lt_dec x c2) as [Q2|Q2]; [lia|]|]; exfalso.
+      + assert (X : cell M ke (S c2) = true).
+        { apply (Cv ke Hke c2 (S c2) x); [lia|apply Full; lia|apply B; exact Hke]. }
+        congruence.
+      + destruct West as [->|(kw & Hkw & West)]; [lia|].
+        assert (X : cell M kw (c1 - 1) = true).
+        { apply (Cv kw Hkw x (c1 - 1) c1); [lia|apply B; exact Hkw|apply Full; lia]. }
+        congruence.
+    - intros Hx k Hk. apply cell_ri; [apply Cv; exact Hk|apply Full; lia]. }
+  apply filtered_keep; [exact E0| |].
+  - (* the entry to the right: rows r1 .. r2+1 *)
+    destruct (le_lt_dec (length M) (S r2)) as [Q|Q]; [rewrite table_out by exact Q; discriminate|].
+    intros E. destruct (table_mem M r1 (S r2) Q ltac:(lia)) as [_ Hm]. rewrite E in Hm.
+    assert (X : cell M (S r2) js = true).
+    { apply ri_cell. apply (proj1 (Hm js)); [cbn; lia|lia]. }
+    congruence.
+  - (* the entry above: rows r1-1 .. r2 *)
+    destruct North as [->|(jn & Hjn & North)]; [left; reflexivity|].
+    destruct (Nat.eq_dec r1 0) as [->|Hne]; [left; reflexivity|right].
+    intros E. destruct (table_mem M (r1 - 1) r2 Hn ltac:(lia)) as [_ Hm]. rewrite E in Hm.
+    assert (X : cell M (r1 - 1) jn = true).
+    { apply ri_cell. apply (proj1 (Hm jn)); [cbn; lia|lia]. }
+    congruence.
+Qed.
